@@ -358,6 +358,9 @@ package rux
 //@   ensures insert_evicts_lru_only: !old(k in c.hashMap) && old(len(c.hashMap)) >= c.size && c.size >= 1
 //@       ==> (forall j string :: (j in c.hashMap) == ((old(j in c.hashMap) && !old(lruKey(c, j))) || j == k))
 //@       && view(c, k) == v && (forall j string :: j != k && j in c.hashMap ==> view(c, j) == old(view(c, j)))
+//@   ensures domain_grows_by_k_only: forall j string :: j in c.hashMap ==> j == k || old(j in c.hashMap)
+//@   ensures other_values_kept: forall j string :: j != k && j in c.hashMap ==> view(c, j) == old(view(c, j))
+//@   ensures stored_value: k in c.hashMap ==> view(c, k) == v
 //@   ensures zero_capacity: c.size <= 0 ==> len(c.hashMap) == 0
 //@   ensures bounded: len(c.hashMap) <= max(c.size, 0)
 //@   ensures stored_is_most_recent: c.size >= 1 ==> k in c.hashMap && mostRecent(c, k)
@@ -407,7 +410,7 @@ package rux
 //@   ensures r == "" || at(r, 0) != at(cutset, 0)
 //@ extern strings.Index(s, substr) (r)
 //@   pure
-//@   ensures r == indexof(s, substr)
+//@   ensures r == indexof(s, substr) && (r == 0) == prefixof(substr, s) && -1 <= r && r <= len(s)
 //@ extern strings.IndexByte(s, c) (r)
 //@   pure
 //@   ensures r == indexof(s, chr(c))
@@ -766,8 +769,8 @@ package rux
 //@   ensures isReg(result) == old(isReg(r)) && (forall x ref :: x != result ==> isReg(x) == old(isReg(x)))
 
 //@ spec listWF(rs routes) bool = forall i int :: 0 <= i && i < len(rs) ==> rs[i] != nil && routeWF(rs[i])
-//@ spec cacheReady(r *Router) bool = r.cachedRoutes != nil ==> cacheInv(r.cachedRoutes) && held(r.cachedRoutes.lock) == 0
-//@     && (forall k string :: k in r.cachedRoutes.hashMap ==> view(r.cachedRoutes, k) != nil)
+//@ spec cacheReady(r *Router) bool = (r.cachedRoutes != nil ==> cacheInv(r.cachedRoutes)) && (r.cachedRoutes != nil ==> held(r.cachedRoutes.lock) == 0)
+//@     && (r.cachedRoutes != nil ==> (forall k string :: k in r.cachedRoutes.hashMap ==> view(r.cachedRoutes, k) != nil))
 //@ spec tablesWF(r *Router) bool = (forall k string :: k in r.regularRoutes ==> listWF(r.regularRoutes[k]))
 //@     && (forall k string :: k in r.irregularRoutes ==> listWF(r.irregularRoutes[k]))
 //@     && cacheReady(r)
